@@ -2,7 +2,8 @@
 // importer).  For the packages on the consensus path of /repo it lists, canonically,
 //
 //	range-map   every `range` over an expression of map type
-//	time-now    every call of time.Now
+//	wall-clock  every read of / wait on the local clock: time.Now, Since, Until, After, Tick, NewTimer,
+//	            NewTicker, AfterFunc, Sleep
 //	go-stmt     every `go` statement
 //	rand        every use of math/rand or crypto/rand
 //	select      every `select` statement
@@ -62,6 +63,11 @@ func sortsAfter(body *ast.BlockStmt, pos token.Pos) bool {
 	})
 	return found
 }
+
+// wallClock: the functions of package time that read or wait on the local clock (everything that
+// is not a pure constructor / conversion such as time.Unix, time.Date, time.Duration, time.Parse).
+var wallClock = map[string]bool{"Now": true, "Since": true, "Until": true, "After": true, "Tick": true,
+	"NewTimer": true, "NewTicker": true, "AfterFunc": true, "Sleep": true}
 
 func exprString(fset *token.FileSet, e ast.Node) string {
 	var sb strings.Builder
@@ -212,8 +218,8 @@ func main() {
 							if se, ok := x.Fun.(*ast.SelectorExpr); ok {
 								if id, ok := se.X.(*ast.Ident); ok {
 									switch {
-									case id.Name == "time" && se.Sel.Name == "Now":
-										facts = append(facts, Fact{Pkg: dir, File: rel, Func: fn, Kind: "time-now", Expr: "time.Now"})
+									case id.Name == "time" && wallClock[se.Sel.Name]:
+										facts = append(facts, Fact{Pkg: dir, File: rel, Func: fn, Kind: "wall-clock", Expr: "time." + se.Sel.Name})
 									case (id.Name == "sdk" || id.Name == "types") && se.Sel.Name == "NewContext":
 										facts = append(facts, Fact{Pkg: dir, File: rel, Func: fn, Kind: "new-context", Expr: id.Name + ".NewContext"})
 									}
